@@ -72,6 +72,8 @@ def ladder_job(args):
         else:
             m.P = pts[k]
         out[k] = measure(m)
+        if "solver" not in out[k]:
+            out[k]["T" if axis == "T" else "P"] = pts[k]      # the value that was ASSIGNED is the state the result is attributed to
     return out
 
 
@@ -94,6 +96,8 @@ def ladder(rng, lo, hi, n, log):
         pts.add(v)
         if rng.random() < 0.2 and v * 1.001 < hi:
             pts.add(v * 1.001)
+        if rng.random() < 0.1 and v * (1 + 5e-6) < hi:
+            pts.add(v * (1 + 5e-6))          # an assignment a sweep may make: a few parts per million away
     return sorted(pts)
 
 
